@@ -144,8 +144,8 @@ def eval_mix(s, rnd):
     o["lla_c_hit"] = fl(call(CL.log_likelihood_alleles_cached, T, counts, haps, alleles[perm], d))
     o["lla_c_size"] = len(d)
     srt = np.sort(alleles)
-    # (PaddingInvariant) the locus extended by PAD SNVs without any base call, after / before the real ones
-    PAD = 70
+    # (PaddingInvariant) the locus extended by PAD SNVs without any base call, after / before the real ones (positions beyond 127)
+    PAD = 130
     R = len(cells)
     gapT = np.full((R, PAD, M), np.nan)
     zeros = np.zeros((P, PAD), dtype=np.int8)
